@@ -1,7 +1,7 @@
 (** Main lemmas of C07: acceptance soundness of checkValidity /
     CheckHeaderAndUpdateState, exact store update, latest-height monotonicity over
     histories, expiry, proof-height and delay gates. *)
-From Teleport Require Import Base.Bytes Base.Outcome Model.Tendermint Proofs.TendermintStore Proofs.TendermintVerify.
+From Teleport Require Import Base.Bytes Base.Outcome Model.Tendermint Model.TendermintCheck Proofs.TendermintStore Proofs.TendermintVerify.
 From Coq Require Import Lia ZArith NArith List Bool.
 From Coq Require Import ZifyN ZifyNat ZifyBool.
 Local Open Scope Z_scope.
@@ -261,9 +261,6 @@ Section Main.
   Qed.
 
   (** ** Latest height never decreases *)
-  Definition client_of (s : store) : option client_state :=
-    match sget client_key s with Some (VClient c) => Some c | _ => None end.
-
   Definition same_config (a b : client_state) : Prop :=
     cs_chain_id a = cs_chain_id b /\ cs_tl_num a = cs_tl_num b /\ cs_tl_den a = cs_tl_den b /\
     cs_trusting a = cs_trusting b /\ cs_unbonding a = cs_unbonding b /\ cs_drift a = cs_drift b /\
@@ -356,6 +353,8 @@ Section Gates.
     split; [now apply h_lt_false_lte|]. exists cons, pf. auto.
   Qed.
 
+End Gates.
+
   Lemma be_decode_bound b : (be_decode b < 256 ^ N.of_nat (length b))%N.
   Proof.
     induction b as [|x b IH] using rev_ind; [cbn; lia|].
@@ -411,7 +410,6 @@ Section Gates.
     destruct (u64 now <? add64 pt delay)%N eqn:E; [discriminate|]. apply N.ltb_ge in E.
     intro S. unfold add64 in E. rewrite N.mod_small in E by exact S. exact E.
   Qed.
-End Gates.
 
 (** * Adjacent headers and the trust level (observation O1) *)
 Section Adjacent.
@@ -469,3 +467,85 @@ Section Adjacent.
     lia.
   Qed.
 End Adjacent.
+
+(** * Corollaries *)
+Section Corollaries.
+  Variable valset_hash : list (pubkey * Z) -> bytes.
+  Variable header_hash : pheader -> bytes.
+  Variable verify_sig : pubkey -> bytes -> pcommit -> nat -> bool.
+
+  Lemma hash_input_eq_dec (a b : list (pubkey * Z)) : {a = b} + {a <> b}.
+  Proof.
+    apply list_eq_dec. intros [[t1 k1] p1] [[t2 k2] p2].
+    destruct (Nat.eq_dec t1 t2), (bytes_eq_dec k1 k2), (Z.eq_dec p1 p2); subst; auto; right; congruence.
+  Qed.
+
+  Lemma adjacent_uniform cs s hdr now r :
+    wf_header hdr ->
+    check_header_and_update_state valset_hash header_hash verify_sig cs s hdr now = Ok r ->
+    forall sh h c tvals ttot vals tot,
+    h_signed hdr = Some sh -> sh_header sh = Some h -> sh_commit sh = Some c ->
+    valset_from_proto (h_trusted_vals hdr) = Ok (tvals, ttot) ->
+    valset_from_proto (h_valset hdr) = Ok (vals, tot) ->
+    hd_height h = Z.of_N (h_hgt (h_trusted_height hdr)) + 1 ->
+    (0 < cs_tl_den cs)%N -> (3 * cs_tl_num cs <= 2 * cs_tl_den cs)%N ->
+    (hash_input vals <> hash_input tvals /\ valset_hash (hash_input vals) = valset_hash (hash_input tvals)) \/
+    Z.of_N (cs_tl_den cs) * signed_trusted verify_sig (hd_chain_id h) c (hash_input tvals)
+    > Z.of_N (cs_tl_num cs) * total_of (hash_input tvals).
+  Proof.
+    intros Hwf H sh h c tvals ttot vals tot Es Eh Ec Etv Eov Adj Hden Hlvl.
+    apply chus_accept_sound in H; [|exact Hwf].
+    destruct H as (tc & tvals' & ttot' & sh' & h' & c' & vals' & tot' & hrev & F).
+    destruct F as (_ & Ftv & Fth & Fs & Fh & Fc & Fov & _ & _ & _ & _ & _ & _ & _ & _ & _ & Fvh & Fown & Fadj & _).
+    rewrite Es in Fs. inversion Fs; subst sh'. rewrite Eh in Fh. inversion Fh; subst h'.
+    rewrite Ec in Fc. inversion Fc; subst c'. rewrite Etv in Ftv. inversion Ftv; subst tvals' ttot'.
+    rewrite Eov in Fov. inversion Fov; subst vals' tot'.
+    specialize (Fadj Adj).
+    destruct (hash_input_eq_dec (hash_input vals) (hash_input tvals)) as [E|N].
+    - right. rewrite E in Fown.
+      destruct (valset_from_proto_ok _ _ _ Etv) as (_ & _ & _ & _ & Hnt & _).
+      apply adjacent_implies_trust_level; auto; lia.
+    - left. split; [exact N|]. congruence.
+  Qed.
+
+  Lemma u64_bound z : (u64 z < two64N)%N.
+  Proof.
+    unfold u64, two64N, two64. pose proof (Z.mod_pos_bound z 18446744073709551616 ltac:(lia)). lia.
+  Qed.
+
+  Lemma processed_time_recorded s hdr now s' hh :
+    update_client valset_hash header_hash verify_sig s hdr now = Ok s' -> get_height hdr = Ok hh ->
+    get_processed_time s' hh = Some (Ok (u64 now)) /\ get_cons s' hh <> Err.
+  Proof.
+    intros H Hh. apply update_exact in H as (cs & h & hh' & p & _ & _ & Hh' & _ & Hk).
+    rewrite Hh in Hh'. inversion Hh'; subst hh'. split.
+    - unfold get_processed_time. rewrite (Hk (pt_key hh)).
+      destruct (bytes_eqb_spec (pt_key hh) (cons_key hh)) as [E|_]; [symmetry in E; now apply cons_pt_neq in E|].
+      destruct (bytes_eqb_spec (pt_key hh) client_key) as [E|_]; [now apply pt_client_neq in E|].
+      destruct (bytes_eqb_spec (pt_key hh) (iter_key hh)) as [E|_]; [now apply pt_iter_neq in E|].
+      rewrite bytes_eqb_refl.
+      destruct (be64 (u64 now)) as [|x b] eqn:E.
+      + apply (f_equal (@length byte)) in E. rewrite be64_length in E. discriminate.
+      + rewrite <- E. now rewrite be_uint64_be64 by apply u64_bound.
+    - unfold get_cons. rewrite (Hk (cons_key hh)), bytes_eqb_refl. discriminate.
+  Qed.
+End Corollaries.
+
+Section Gates2.
+  Variable proof_decodes : bytes -> bool.
+  Variable membership_ok : client_state -> bytes -> bytes -> bool -> (bytes * bytes * N) -> bytes -> bool.
+
+  Lemma verify_packet_gates cs s now h proof ack path val :
+    (cs_delay cs < two64N)%N ->
+    verify_packet proof_decodes membership_ok cs s now h proof ack path val = Ok tt ->
+    h_lte h (cs_latest cs) = true /\
+    exists cons pf pt,
+      get_cons s h = Ok cons /\ proof = Some pf /\ proof_decodes pf = true /\
+      membership_ok cs (c_root cons) pf ack path val = true /\
+      get_processed_time s h = Some (Ok pt) /\ (pt + cs_delay cs <= u64 now)%N.
+  Proof.
+    intros Hd H. unfold verify_packet in H. apply verify_packet_with_ok in H as (L & cons & pf & Hc & Hp & Hdc & Hg & Hm).
+    apply delay_gate_ok in Hg as (pt & Hpt & Hle); [|exact Hd].
+    split; [exact L|]. exists cons, pf, pt. auto 10.
+  Qed.
+End Gates2.
